@@ -280,6 +280,20 @@ def copies(tier):
             out.append(_t(f"export function f({M} a{kp}) -> {M} {{ {M} c = a; a{w}; return c; }}", f"copy {M} write source {wname}", ["copy", "matrix"], kb))
         out.append(_t(f"export function f({M} a, int i) -> {R} {{ {R} r = a[i]; r.x = 9.0; return a[i]; }}", f"row copy {M} independent", ["copy", "matrix"], {"i": (0, n - 1)}))
         out.append(_t(f"export function f({M} a, int i) -> {M} {{ {R} r = a[i]; a[i][1] = 9.0; a[0] = r; return a; }}", f"row copy {M} then writes", ["copy", "matrix"], {"i": (0, n - 1)}))
+    # values that reach two places without a store in between: call arguments, one variable used for several rows / parts of a constructor
+    for T, comp, one, n in (("float3", "float", "9.0", 3), ("int4", "int", "9", 4)):
+        out.append(_t(f"function h({T} v, int i, {comp} x) -> {comp} {{ v[i] = x; return v[0]; }}\nexport function f({T} a, int i, {comp} x) -> {T} {{ {comp} r = h(a, i, x); a[0] = a[0] + r; return a; }}",
+                      f"callee writes an element of its {T} parameter", ["copy", "call"], {"i": (0, n - 1)}, small=True))
+        out.append(_t(f"function h({T} v, {comp} x) -> {T} {{ v.y = x; v[0] = x; return v; }}\nexport function f({T} a, {comp} x) -> {T} {{ {T} w = h(a, x); return a + w; }}",
+                      f"callee writes components of its {T} parameter", ["copy", "call"], small=True))
+    for n in (3, 4):
+        M, R = f"float{n}x{n}", f"float{n}"
+        rows = ", ".join(["z"] * n)
+        out.append(_t(f"export function f({R} z, float x) -> {M} {{ {M} m = {M}({rows}); m[0][1] = x; return m; }}", f"{M} from one row variable, element write", ["copy", "matrix", "construct"]))
+        out.append(_t(f"export function f({R} z, float x, int i) -> {M} {{ {M} m = {M}({rows}); m[i][i] = x; z.x = 7.0; return m; }}", f"{M} from one row variable, dynamic element write, row variable written", ["copy", "matrix", "construct"], {"i": (0, n - 1)}))
+        out.append(_t(f"function h({M} m, int i, float x) -> float {{ m[i][0] = x; m[0] = m[1]; return m[i][0]; }}\nexport function f({M} a, int i, float x) -> {M} {{ float r = h(a, i, x); a[1][1] = r; return a; }}",
+                      f"callee writes elements and rows of its {M} parameter", ["copy", "matrix", "call"], {"i": (0, n - 1)}, small=True))
+    out.append(_t("export function f(float2 p, float x) -> float4 { float4 v = float4(p, p); v[2] = x; v.y = 5.0; return v + float4(p.x, p.y, p.x, p.y); }", "vector from one part twice, element writes", ["copy", "construct"]))
     out.append(_t("export function f(float3 a, float3 b, int i) -> float3 { float3[2] arr; arr[0] = a; arr[1] = a; arr[i].y = b.x; return arr[0] + arr[1]; }", "array of vectors element write", ["copy", "array"], {"i": (0, 1)}))
     out.append(_t("struct S { float3 v; float3 w; }\nexport function f(float3 a) -> float3 { S s; s.v = a; s.w = s.v; s.w.x = 9.0; return s.v; }", "struct members independent", ["copy", "struct"]))
     return out
